@@ -65,6 +65,8 @@ def hook_line(h):
         return "hraw_rassert %s %d %d %d" % (a_line(h[1]), h[2], h[3], h[4])
     if k == "hraw_pdec":         # the pair's factory-only decimals update: denom d0 d1
         return "hraw_pdec %d %d %d" % (h[1], h[2], h[3])
+    if k == "hraw_precv":        # a whole Receive envelope of the pair as payload: envelope sender, envelope amount, swap hook
+        return "hraw_precv %d %d %s %d %s" % (h[1], h[2], a_line(h[3]), h[4], o_line(h[5]))
     return k
 
 
@@ -76,7 +78,7 @@ def hook_coq(h):
         return "(HRouterOps %s %s %s)" % (ops_coq(h[1]), o_coq(h[2]), o_coq(h[3]))
     # payloads that are messages of the receiving contract's execute interface but not hook messages are garbage to the model
     return {"hwithdraw": "HWithdraw", "hgarbage": "HGarbage", "hraw_rop": "HGarbage", "hraw_rassert": "HGarbage",
-            "hraw_pdec": "HGarbage"}[k]
+            "hraw_pdec": "HGarbage", "hraw_precv": "HGarbage"}[k]
 
 
 def op_line(o):
@@ -210,7 +212,7 @@ class WorldProc:
 class Hist:
     """One history: talks to the harness and mirrors the snapshot layout of World/Observe.v."""
 
-    def __init__(self, nu, nd, nt, maxp, ubal, fbal, tdecs, stream="random", note=None, look=None, proxies=0, tf=None):
+    def __init__(self, nu, nd, nt, maxp, ubal, fbal, tdecs, stream="random", note=None, look=None, proxies=0, tf=None, rogue=None):
         self.nu, self.nd, self.nt, self.maxp = nu, nd, nt, maxp
         self.ubal, self.fbal, self.tdecs = ubal, fbal, list(tdecs)
         self.stream, self.note = stream, note
@@ -219,6 +221,9 @@ class Hist:
         self.proc = WorldProc()
         if proxies:
             self.proc.ask("proxies %d" % proxies)
+        self.rogue = rogue      # (t, p): asset token t names contract p (a pair-to-be) as its minter; nobody mints it (driver convention)
+        if rogue:
+            self.proc.ask("rogue %d %d" % rogue)
         self.tf = tf            # (d, u): bank denom d is spelled as the token-factory denom of user u ("factory/<address>/sub")
         if tf:
             self.proc.ask("tfdenom %d %d" % tf)
@@ -381,7 +386,7 @@ class HistCase(Case):
         Case.__init__(self, "hist", [], [], h.stream, h.note)
         self.h = h
         self.results = []
-        self._key = hashlib.sha1(repr((h.nu, h.nd, h.nt, h.maxp, h.ubal, h.fbal, h.tdecs, h.look, h.proxies, h.tf,
+        self._key = hashlib.sha1(repr((h.nu, h.nd, h.nt, h.maxp, h.ubal, h.fbal, h.tdecs, h.look, h.proxies, h.tf, getattr(h, "rogue", None),
                                        [(s[0], s[1]) for s in h.steps])).encode()).hexdigest()
 
     def key(self):
@@ -414,7 +419,7 @@ class HistCase(Case):
                 "world": {"users": h.nu, "denoms": h.nd, "tokens": h.nt, "maxpairs": h.maxp, "user_balance": str(h.ubal),
                           "factory_balance": str(h.fbal), "token_decimals": h.tdecs,
                           "lookalike": list(h.look) if h.look else None, "proxies": h.proxies,
-                          "tfdenom": list(h.tf) if h.tf else None},
+                          "tfdenom": list(h.tf) if h.tf else None, "rogue": list(h.rogue) if h.rogue else None},
                 "steps": [{"op": op_line(s[0]), "ok": s[1], "swap_attrs": [str(x) for x in s[2]],
                            "quote": [str(x) for x in s[3]], "changed_slots": len(s[4]),
                            "queries": [q[0] for q in s[5]]} for s in h.steps]}
@@ -450,7 +455,8 @@ def replay_hist(j):
     """rebuild a history from its JSON form by re-running the operations on the real code"""
     w = j["world"]
     h = Hist(w["users"], w["denoms"], w["tokens"], w["maxpairs"], int(w["user_balance"]), int(w["factory_balance"]),
-             w["token_decimals"], "replay", look=tuple(w["lookalike"]) if w.get("lookalike") else None, proxies=w.get("proxies", 0), tf=tuple(w["tfdenom"]) if w.get("tfdenom") else None)
+             w["token_decimals"], "replay", look=tuple(w["lookalike"]) if w.get("lookalike") else None, proxies=w.get("proxies", 0), tf=tuple(w["tfdenom"]) if w.get("tfdenom") else None,
+             rogue=tuple(w["rogue"]) if w.get("rogue") else None)
     for s in j["steps"]:
         for ql in s.get("queries", []):
             kq = ql.split()[0]
@@ -515,6 +521,8 @@ class _Cur:
             return (k, self.asset(), self.num(), self.num(), self.num())
         if k == "hraw_pdec":
             return (k, self.num(), self.num(), self.num())
+        if k == "hraw_precv":
+            return (k, self.num(), self.num(), self.asset(), self.num(), self.onum())
         return (k,)
 
 
@@ -1099,7 +1107,13 @@ def auth_matrix(rng, tier):
         for phase in (0, 1, 2):
             owner = h.owner()
             if phase < 2:
-                roles = [h.users()[-1], FACTORY, ROUTER, p, lp, 2, created[1]] + formers + [owner]
+                # callers whose account NAMES are unusual: 1, 2, 55, 70 characters (the address codec refuses them), upper case
+                # (C14-agent16: an owner check that fails open when the caller's name cannot be canonicalised)
+                # (NOT an upper-case spelling of the owner's own address: the mock address codec folds case, as bech32 does, so
+                # "USER0" canonicalises to the owner and is served - on a chain a sender is always the normalised spelling;
+                # tried, raised an alarm on the unchanged tree, environment artefact, removed)
+                odd = [1990, 1991, 1994, 1995] if phase == 0 else [1990, 1995]
+                roles = [h.users()[-1], FACTORY, ROUTER, p, lp, 2, created[1]] + odd + formers + [owner]
             else:  # after the second hand-over: only the accounts whose standing the hand-overs changed
                 roles = sorted(set(formers + [USER0 + 1, USER0 + 2]) - {owner}) + [owner]
             for c in roles:
@@ -1119,7 +1133,7 @@ def auth_matrix(rng, tier):
                 # the internal single-hop message "prepaid": exactly the offered coin attached, with and without a
                 # recipient, and the other shapes of funds (C14-agent14: a non-router caller accepted when the hop's own
                 # coin rides along and `to` is given)
-                if h.bank(c, 0) >= 300:
+                if c < 1990 and h.bank(c, 0) >= 300:
                     for funds_, to_ in (([(0, 100)], c), ([(0, 100)], USER0), ([(0, 100)], None), ([(0, 100), (2, 1)], USER0)):
                         if all(h.bank(c, d_) >= n_ for d_, n_ in funds_):
                             h.do(("router_op", c, funds_, ("n", 0), ("t", 2), to_))
@@ -1300,6 +1314,9 @@ def commission_histories(rng, tier):
                     elif offer[0] == "n":
                         h.do(("swap", p, u, [(offer[1], amt)], offer, amt, None, None, None), quote)
                     else:
+                        if amt == 123457:
+                            # the execute entry point naming the cw20 (the sender has approved the pair): not a way to offer it
+                            h.do(("swap", p, u, [], offer, amt, None, None, None), quote)
                         h.do(("send", offer[1], u, p, amt, ("hswap", offer, amt, None, None, None)), quote)
         for p in created:
             swaps(p)
@@ -1352,6 +1369,37 @@ def commission_histories(rng, tier):
             else:
                 h.do(("send", offer[1], u, p, amt, ("hswap", offer, amt, None, None, None)), quote)
     cases.append(h.finish())
+    return cases
+
+
+def deep_pool_histories(rng, tier):
+    """the deepest pool a pair accepts (reserve product just under (2^256-1)/10^18, the bound provide_liquidity enforces):
+    every offer is quoted, then swapped, by both entry points and in both directions, from 10^18 up to sizes whose retained
+    commission lifts the product over the bound; reverse quotes too (C12: whenever the swap succeeds the quote was the same
+    - C12-agent16: the simulation refused offers the swap still accepts)"""
+    cases = []
+    for comm in (3 * 10 ** 15, 0) if tier == "quick" else (3 * 10 ** 15, 0, 3 * 10 ** 16, D // 2):
+        h = Hist(3, 2, 2, 2, 2 ** 119, 1000, [18, 18], "directed-extreme", "deepest pool the pair accepts, rate %d" % comm)
+        created = setup_pairs(h, rng, [(("n", 0), ("t", 2)), (("t", 2), ("t", 3))], comm=comm, provide=False, native_decs=[18, 18])
+        side = 340282366920 * 10 ** 18
+        for p in created:
+            a0, a1 = h.pair_assets(p)
+            h.do(("provide", p, USER0, funds_for([(a0, 10 ** 19), (a1, 10 ** 19)]), a0, 10 ** 19, a1, 10 ** 19, None, None))
+            top = side - 10 ** 19
+            h.do(("provide", p, USER0, funds_for([(a0, top), (a1, top)]), a0, top, a1, top, None, None))
+            h.do(("provide", p, USER0, funds_for([(a0, 10 ** 19), (a1, 10 ** 19)]), a0, 10 ** 19, a1, 10 ** 19, None, None))   # over the bound
+            for k, amt in enumerate((10 ** 18, 10 ** 20, 10 ** 21, 3 * 10 ** 21 + 7, 10 ** 24)):
+                offer = (a0, a1)[k % 2]
+                u = USER0 + 1
+                quote = h.query("sim %d %s %d" % (p, a_line(offer), amt))
+                h.query("revsim %d %s %d" % (p, a_line((a0, a1)[1 - k % 2]), amt // 2))
+                if offer[0] == "n":
+                    h.do(("swap", p, u, [(offer[1], amt)], offer, amt, None, None, None), quote)
+                else:
+                    h.do(("send", offer[1], u, p, amt, ("hswap", offer, amt, None, None, None)), quote)
+            lp = h.pair_lp(p)
+            h.do(("send", lp, USER0, p, h.bal(lp, USER0) // 2, ("hwithdraw",)))
+        cases.append(h.finish())
     return cases
 
 
@@ -1463,7 +1511,11 @@ def lp_handover_histories(rng, tier):
         # the last two users are proxy contracts: LP held, handed over and redeemed by contracts
         h = Hist(4, 2, 2, 3, 10 ** 15, 1000, [6, 18], "directed-matrix", "LP handed over by transfer, then withdrawn", proxies=2)
         # pairs created WITH first-provision minimums (met by the seeding deposit): they bind the first provision only
-        created = setup_pairs(h, rng, kinds, comm=3 * 10 ** 15, scale=10 ** 9, native_decs=[6, 6], mins=(10 ** 6, 1000))
+        # (first history: balanced seeding deposits of 10^9 with minimums of 4*10^8 each, so that the reserves certainly fall
+        # below the creation minimums while several holders are still in - whatever the seed draws; C20-agent11 was caught
+        # only when the drawn deposit happened to sit at the minimum)
+        created = setup_pairs(h, rng, kinds, comm=3 * 10 ** 15, scale=10 ** 9, native_decs=[6, 6],
+                              mins=(4 * 10 ** 8, 4 * 10 ** 8) if rep == 0 else (10 ** 6, 1000), even=(rep == 0))
         for i, p in enumerate(created):
             lp = h.pair_lp(p)
             a0, a1 = h.pair_assets(p)
@@ -1501,6 +1553,27 @@ def lp_handover_histories(rng, tier):
     return cases
 
 
+def counterfeit_lp_histories(rng, tier):
+    """a cw20 that is NOT the pair's LP token but looks like a share token of it: its minter is the pair's address, outsiders
+    hold all of its supply; it relays withdraw hooks (and swap hooks) for large parts of that supply.  Must be refused like
+    any foreign token (C04-agent16: any cw20 whose minter is the pair accepted as share token, paid pro rata to ITS supply)"""
+    cases = []
+    for rep in range({"quick": 1, "thorough": 3}[tier]):
+        h = Hist(3, 2, 3, 2, 10 ** 12, 1000, [6, 6, 6], "directed-matrix", "counterfeit share token (minter = the pair)",
+                 rogue=(4, 5 + 2 * (rep % 2)))
+        created = setup_pairs(h, rng, [(("n", 0), ("t", 2)), (("t", 2), ("t", 3))], comm=3 * 10 ** 15, scale=10 ** 9, even=True)
+        for p in created:
+            for u in (USER0 + 1, USER0 + 2):
+                for amt in (h.bal(4, u), h.bal(4, u) // 2, 1):
+                    if amt > 0:
+                        h.do(("send", 4, u, p, amt, ("hwithdraw",)))
+                h.do(("send", 4, u, p, 1000, ("hswap", ("t", 4), 1000, None, None, None)))
+            lp = h.pair_lp(p)
+            h.do(("send", lp, USER0, p, h.bal(lp, USER0) // 3, ("hwithdraw",)))
+        cases.append(h.finish())
+    return cases
+
+
 def swap_matrix(rng, tier):
     """delivered asset x named asset x named amount x funds x receiver, per pair kind (C02)"""
     cases = []
@@ -1530,6 +1603,16 @@ def swap_matrix(rng, tier):
                             h.do(("send", ta, u, p, a, ("hswap", named, namt, None, None, rcv)))
                         # rogue Receive
                         h.do(("pair_receive", p, u, [], u, a, ("hswap", named, namt, None, None, rcv)))
+        # a Send whose payload is not a hook message but a whole Receive ENVELOPE of the pair's execute interface, written by the
+        # trader: it names an amount (and a sender) of his choosing and carries a swap hook for that amount; the tokens
+        # actually sent are 1 unit, the named amount, or more (C02-agent16: unknown payloads were retried as execute messages)
+        for p in created:
+            for off in h.pair_assets(p):
+                if off[0] != "t":
+                    continue
+                for sent, named in ((1, a), (a, a), (a, 1), (a, 10 * a)):
+                    for env_sender in (u, p):
+                        h.do(("send", off[1], u, p, sent, ("hraw_precv", env_sender, named, off, named, None)))
         # valid swaps whose designated receiver is itself a contract of the system: the offered token, the other token, the
         # LP token, the factory, the router
         for p in created:
@@ -1620,6 +1703,23 @@ def registry_histories(rng, tier, big=False):
         for L_ in (None, 1, 7):
             h.query("walk %s" % o_line(L_))
         cases.append(h.finish())
+    # MANY registered denoms (more than any page size a listing might use), few pairs: the denoms the pairs trade sort after
+    # thirty others; each is registered again, twice (C17-agent16: the registry of denoms read through a paged helper)
+    nd_ = 36
+    h = Hist(1, nd_, 2, 8, 10 ** 9, 1000, [6, 18], "directed-grid", "registry with %d native denoms" % nd_)
+    owner = h.owner()
+    for d in range(nd_):
+        h.do(("fac_add_native", owner, d, 6 + d % 3))
+    late = [0, 1, 3, 4, 5]          # uaura, ibc/..., uaurax, xuaura, uzzz: all sort after "UAURA" and "denom6".."denom35"
+    cand = [(("n", late[i]), ("n", late[j])) for i in range(len(late)) for j in range(i + 1, len(late))][:4] + \
+           [(("n", 4), ("t", 2)), (("t", 3), ("n", 5)), (("n", 20), ("t", 2)), (("n", 2), ("n", 0))]
+    for (a, b) in cand:
+        h.do(("fac_create_pair", owner, a, b, [USER0], 0, 0, None, None))
+    for rnd in (0, 1):
+        for d in late + [20, 2, 35]:
+            h.do(("fac_add_native", owner, d, [9, 12][rnd] + d % 2))
+        h.query("walk %s" % o_line(None))
+    cases.append(h.finish())
     # unregistered denom / denom the factory holds none of
     h = Hist(2, 3, 1, 2, 10 ** 9, 0, [6], "directed-grid", "factory holds no native balance")
     h.do(("fac_add_native", USER0, 0, 6))
@@ -1903,16 +2003,25 @@ def guard_histories(rng, tier):
         for p in created[(rep + 1) % 3:(rep + 1) % 3 + 2]:
             for i in (0, 1):
                 offer = h.pair_assets(p)[i]
-                r = h.reserves(p)
-                for mult in (1, 3):
+                for mult in (3, 1):
+                    r = h.reserves(p)          # the reserves NOW: earlier swaps of this block have deepened the offer side
                     amount = min(h.abal(offer, USER0 + 2), r[i] * mult + 1)
                     if amount <= 0 or r[i] == 0:
                         continue
-                    q = h.query("sim %d %s %d" % (p, a_line(offer), amount))
-                    if not q or q[0] + q[1] == 0:
-                        continue
-                    ratio = q[1] * D // (q[0] + q[1])
-                    for ms in (ratio + 1, (ratio + D) // 2, D, ratio - 1 if ratio > 0 else 0):
+                    # the limits that must REFUSE come first and every limit is placed against a fresh quote: an accepted swap
+                    # deepens the pool, after which the same offer has a smaller ratio and a stale "just below" limit is
+                    # legitimately met (found through C10-agent16: the refusing case of this block never refused)
+                    for kind in ("below", "far-below", "above", "mid", "one"):
+                        q = h.query("sim %d %s %d" % (p, a_line(offer), amount))
+                        if not q or q[0] + q[1] == 0:
+                            continue
+                        ratio = q[1] * D // (q[0] + q[1])
+                        # "far-below": between the ratio a guard would see if the spread were capped by the ask reserve and
+                        # the true ratio
+                        ms = {"below": max(0, ratio - 1), "far-below": ratio - ratio // 20, "above": ratio + 1,
+                              "mid": (ratio + D) // 2, "one": D}[kind]
+                        if kind in ("mid", "one") and mult == 3:
+                            continue            # one accepted swap of three times the reserve is enough
                         if offer[0] == "n":
                             h.do(("swap", p, USER0 + 2, [(offer[1], amount)], offer, amount, None, ms, None))
                         else:
